@@ -52,6 +52,8 @@ pub fn d_pool() -> Vec<String> {
         "x:y".into(),
         "a:b:c".into(),
         ":".into(),
+        format!("{}1", "w".repeat(480)),
+        format!("{}2", "w".repeat(480)),
     ]
 }
 
@@ -87,13 +89,25 @@ pub struct GenEvent {
     pub tags: Vec<Vec<String>>,
     pub content_len: u32,
     pub idc: IdChoice,
+    /// this many extra ["p", ...] tags are put in FRONT of the generated tags (follow lists and the like)
+    #[serde(default)]
+    pub many: u16,
+}
+
+impl GenEvent {
+    pub fn all_tags(&self) -> Vec<Vec<String>> {
+        let mut t: Vec<Vec<String>> = (0..self.many).map(|i| vec!["p".to_string(), format!("follow-{i}")]).collect();
+        t.extend(self.tags.iter().cloned());
+        t
+    }
 }
 
 impl GenEvent {
     pub fn to_model(&self) -> MEvent {
         let pubkey = author(self.author);
         let content: String = (0..self.content_len as usize).map(|i| (b'a' + (i % 26) as u8) as char).collect();
-        let canon = serde_json::to_string(&serde_json::json!([0, pubkey, self.created_at, self.kind, self.tags, content])).unwrap();
+        let tags = self.all_tags();
+        let canon = serde_json::to_string(&serde_json::json!([0, pubkey, self.created_at, self.kind, tags, content])).unwrap();
         let id = match self.idc {
             IdChoice::Hash => hex(&sha256(canon.as_bytes())),
             IdChoice::Zeros => "00".repeat(32),
@@ -105,7 +119,7 @@ impl GenEvent {
             sig: "5a".repeat(64),
             kind: self.kind,
             created_at: self.created_at,
-            tags: self.tags.clone(),
+            tags,
             content,
         }
     }
@@ -151,6 +165,8 @@ pub fn db_tag_n(n: usize, names: usize) -> BoxedStrategy<Vec<String>> {
             .prop_map(|(n, mut v)| { v.insert(0, n.to_string()); v }),
         1 => Just(Vec::<String>::new()),
         1 => prop::sample::select(vec!["e", "d", "t"]).prop_map(|n| vec![n.to_string()]),
+        // NIP-40: long past, far future, garbage
+        1 => prop::sample::select(vec!["1", "100", "99999999999", "18446744073709551615", "soon"]).prop_map(|v| vec!["expiration".to_string(), v.to_string()]),
     ]
     .boxed()
 }
@@ -166,6 +182,8 @@ pub struct EvCfg {
     pub tag_values: usize,
     /// 0 = all tag names; otherwise only the first n of e, p, t, a, d
     pub tag_names: usize,
+    /// few kinds per class and few d values, so that several events share (author, kind) and d values
+    pub narrow: bool,
 }
 
 impl Default for EvCfg {
@@ -177,19 +195,33 @@ impl Default for EvCfg {
             extreme_ids: true,
             tag_values: 0,
             tag_names: 0,
+            narrow: false,
         }
     }
 }
 
 pub fn gen_event(cfg: EvCfg) -> BoxedStrategy<GenEvent> {
     let w = cfg.kind_weights;
-    let kind = prop_oneof![
-        w[0] => prop::sample::select(vec![1u16, 1, 1, 7, 7, 1059, 9999, 40000]),
-        w[1] => prop::sample::select(vec![0u16, 3, 10000, 10002, 19999]),
-        w[2] => prop::sample::select(vec![30000u16, 30023, 39999]),
-        w[3] => prop::sample::select(vec![20000u16, 20001, 29999]),
-        w[4] => prop::sample::select(db_kind_pool()),
-    ];
+    let kind = if cfg.narrow {
+        prop_oneof![
+            w[0] => prop::sample::select(vec![1u16, 1, 7]),
+            w[1] => prop::sample::select(vec![0u16, 10002]),
+            w[2] => prop::sample::select(vec![30023u16, 30023, 30000]),
+            w[3] => prop::sample::select(vec![20001u16]),
+            w[4] => prop::sample::select(db_kind_pool()),
+        ]
+        .boxed()
+    } else {
+        prop_oneof![
+            w[0] => prop::sample::select(vec![1u16, 1, 1, 7, 7, 1059, 9999, 40000]),
+            w[1] => prop::sample::select(vec![0u16, 3, 10000, 10002, 19999]),
+            w[2] => prop::sample::select(vec![30000u16, 30023, 39999]),
+            w[3] => prop::sample::select(vec![20000u16, 20001, 29999]),
+            w[4] => prop::sample::select(db_kind_pool()),
+        ]
+        .boxed()
+    };
+    let narrow = cfg.narrow;
     let idc = if cfg.extreme_ids {
         prop_oneof![30 => Just(IdChoice::Hash), 1 => Just(IdChoice::Zeros), 1 => Just(IdChoice::Ones)].boxed()
     } else {
@@ -201,16 +233,18 @@ pub fn gen_event(cfg: EvCfg) -> BoxedStrategy<GenEvent> {
         time_pool(),
         prop::collection::vec(db_tag_n(cfg.tag_values, cfg.tag_names), 0..=cfg.max_tags),
         prop::option::weighted(0.92, prop_oneof![
-            3 => prop::sample::select(d_pool()),
+            (if narrow { 0 } else { 3 }) => prop::sample::select(d_pool()),
             // values that the 182-byte zero-padded index key cannot tell apart
             2 => prop::sample::select(vec!["x".to_string(), "x\0".to_string(), "x\0\0".to_string(), "".to_string(), "\0".to_string()]),
             2 => prop::sample::select(vec![p182(), format!("{}a", p182()), format!("{}b", p182()), format!("{}\0", p182())]),
         ]),
         content_len_strategy(),
         idc,
+        prop_oneof![60 => Just(0u16), 1 => 250u16..400],
     )
-        .prop_map(|(author, kind, created_at, mut tags, d, content_len, idc)| {
-            // parameterised kinds normally carry a d tag (first), from the colliding pool
+        .prop_map(|(author, kind, created_at, mut tags, d, content_len, idc, many)| {
+            // parameterised kinds normally carry a d tag (first of the generated tags, i.e. after a possible
+            // long run of p tags), from the colliding pool
             if (30000..40000).contains(&kind) {
                 if let Some(d) = d {
                     tags.insert(0, vec!["d".to_string(), d]);
@@ -223,6 +257,7 @@ pub fn gen_event(cfg: EvCfg) -> BoxedStrategy<GenEvent> {
                 tags,
                 content_len,
                 idc,
+                many,
             }
         })
         .boxed()
@@ -270,6 +305,11 @@ pub enum Op {
     /// store a regular event sized so that the used part of the event map ends `slack` bytes (0, 8, 16, ...)
     /// before the end of the backing file (slack 0 = the map is exactly full)
     FillTo { slack: u8, author: u8 },
+    /// a regular event with `kb` KiB of content (release profile: crosses the 4 MiB chunks of the event map)
+    Big { kb: u16, author: u8 },
+    /// `n` deletion requests by one author, each naming `each` ids the store has never seen
+    /// (bulk moderation: tens of thousands of deletion markers)
+    MassDelete { author: u8, n: u8, each: u16 },
     /// fault injection: apply the inner operation while every LMDB reader slot is taken
     /// (as under many concurrent queries), so that lookups inside it fail with MDB_READERS_FULL
     Pressure(Box<Op>),
@@ -288,6 +328,10 @@ pub struct OpWeights {
     pub rebuild: u32,
     pub extra: u32,
     pub pressure: u32,
+    /// weight of MassDelete (tens of thousands of deletion markers); scaled by 1/16
+    pub mass_delete: u32,
+    /// weight of Big (hundreds of KiB of content; only generated in the release profile)
+    pub big: u32,
 }
 
 impl Default for OpWeights {
@@ -304,6 +348,8 @@ impl Default for OpWeights {
             rebuild: 0,
             extra: 0,
             pressure: 0,
+            mass_delete: 0,
+            big: 0,
         }
     }
 }
@@ -348,12 +394,14 @@ pub fn op_strategy(w: OpWeights, cfg: EvCfg) -> BoxedStrategy<Op> {
             0u8..cfg.authors,
             time_pool(),
             prop_oneof![
-                12 => prop::collection::vec(del_target(), 1..5),
+                30 => prop::collection::vec(del_target(), 1..5),
                 // long requests (a relay accepts what fits its message size): 60..100 targets
                 1 => prop::collection::vec(del_target(), 60..100),
                 // long requests whose first 60..100 targets are harmless for the requester (own events, absent ids)
                 // and whose last one names somebody else's stored event
                 2 => (prop::collection::vec(prop_oneof![3 => any::<u16>().prop_map(DelTarget::EOwn), 1 => any::<u8>().prop_map(DelTarget::EAbsent)], 60..100), any::<u16>())
+                    .prop_map(|(mut v, f)| { v.push(DelTarget::EForeign(f)); v }),
+                1 => (prop::collection::vec(prop_oneof![3 => any::<u16>().prop_map(DelTarget::EOwn), 1 => any::<u8>().prop_map(DelTarget::EAbsent)], 250..330), any::<u16>())
                     .prop_map(|(mut v, f)| { v.push(DelTarget::EForeign(f)); v }),
             ],
         )
@@ -375,6 +423,10 @@ pub fn op_strategy(w: OpWeights, cfg: EvCfg) -> BoxedStrategy<Op> {
         ]
         .boxed(),
     ));
+    // very large events only where the event map grows in 4 MiB steps (release profile)
+    if !cfg!(debug_assertions) && w.big > 0 {
+        v.push((w.big, (prop::sample::select(vec![300u16, 700, 1500, 2500, 4100]), 0u8..cfg.authors).prop_map(|(kb, author)| Op::Big { kb, author }).boxed()));
+    }
     // boundary-directed sizes: fill the event map exactly, or leave one or two alignment units
     v.push(((w.store + 5) / 6, (prop::sample::select(vec![0u8, 0, 8, 16, 24]), 0u8..cfg.authors).prop_map(|(slack, author)| Op::FillTo { slack, author }).boxed()));
     if w.pressure > 0 {
@@ -388,7 +440,13 @@ pub fn op_strategy(w: OpWeights, cfg: EvCfg) -> BoxedStrategy<Op> {
         v.push((w.pressure, inner.prop_map(|o| Op::Pressure(Box::new(o))).boxed()));
     }
     let v: Vec<(u32, BoxedStrategy<Op>)> = v.into_iter().filter(|(w, _)| *w > 0).collect();
-    proptest::strategy::Union::new_weighted(v).boxed()
+    let main = proptest::strategy::Union::new_weighted(v).boxed();
+    if w.mass_delete > 0 {
+        let md = (0u8..cfg.authors, prop::sample::select(vec![(21u8, 500u16), (14, 800), (26, 400)])).prop_map(|(author, (n, each))| Op::MassDelete { author, n, each });
+        prop_oneof![(600 / w.mass_delete.max(1)) => main, 1 => md].boxed()
+    } else {
+        main
+    }
 }
 
 pub fn history(w: OpWeights, cfg: EvCfg, max_ops: usize) -> BoxedStrategy<Vec<Op>> {
@@ -891,6 +949,7 @@ impl World {
                     tags,
                     content_len: 0,
                     idc: IdChoice::Hash,
+                    many: 0,
                 };
                 let i = self.intern(ge.to_model(), None);
                 Some(Concrete::Store(i))
@@ -924,6 +983,34 @@ impl World {
             Op::ExtraPut { table, key, val } => Some(Concrete::Extra(*table, key.clone(), Some(val.clone()))),
             Op::ExtraDel { table, key } => Some(Concrete::Extra(*table, key.clone(), None)),
             Op::Pressure(inner) => self.concretise(inner).map(|c| Concrete::Pressure(Box::new(c))),
+            Op::Big { kb, author: a } => {
+                let ge = GenEvent {
+                    author: *a,
+                    kind: 1,
+                    created_at: 160 + (self.events.len() as u64 % 5),
+                    tags: vec![vec!["t".to_string(), format!("big-{}", self.events.len())]],
+                    content_len: *kb as u32 * 1024,
+                    idc: IdChoice::Hash,
+                    many: 0,
+                };
+                let i = self.intern(ge.to_model(), Some(&ge));
+                Some(Concrete::Store(i))
+            }
+            Op::MassDelete { author: a, n, each } => {
+                let mut idxs = Vec::new();
+                for k in 0..*n {
+                    let tags: Vec<Vec<String>> = (0..*each)
+                        .map(|j| {
+                            let mut id = [0x5au8; 32];
+                            id[..8].copy_from_slice(&(((self.events.len() as u64) << 32) | ((k as u64) << 16) | j as u64).to_be_bytes());
+                            vec!["e".to_string(), hex(&id)]
+                        })
+                        .collect();
+                    let ge = GenEvent { author: *a, kind: 5, created_at: 170, tags, content_len: 0, idc: IdChoice::Hash, many: 0 };
+                    idxs.push(self.intern(ge.to_model(), Some(&ge)));
+                }
+                Some(Concrete::StoreMany(idxs))
+            }
             Op::FillTo { slack, author: a } => {
                 let end = self.st().stats().ok()?.event_bytes;
                 let file_len = self.map_len() as usize;
@@ -943,6 +1030,7 @@ impl World {
                     tags,
                     content_len: content_len as u32,
                     idc: IdChoice::Hash,
+                    many: 0,
                 };
                 let i = self.intern(ge.to_model(), Some(&ge));
                 Some(Concrete::Store(i))
@@ -991,6 +1079,16 @@ impl World {
                 kind: StepKind::Extra,
                 res: self.extra_put(*t, k, v.as_deref()),
             },
+            Concrete::StoreMany(v) => {
+                let mut last = Res::Skipped;
+                for i in v {
+                    last = self.store_idx(*i);
+                    if matches!(last, Res::Panic(_)) {
+                        break;
+                    }
+                }
+                Step { kind: StepKind::Nop, res: last }
+            }
             Concrete::Pressure(inner) => {
                 let held = self.exhaust_readers();
                 let full = held.len() >= 100;
@@ -1087,8 +1185,8 @@ impl World {
             if let Some(a) = World::address_of(e) {
                 let _ = addrs.insert(a);
             }
-            for t in &e.tags {
-                if t.len() >= 2 && t[0].len() == 1 {
+            for t in e.tags.iter().take(if e.tags.len() > 12 { 2 } else { 12 }) {
+                if t.len() >= 2 && t[0].len() == 1 && tagvals.len() < 40 {
                     let _ = tagvals.insert((t[0].clone(), t[1].clone()));
                 }
                 if e.kind == 5 && t.len() >= 2 && t[0] == "a" {
@@ -1264,6 +1362,7 @@ pub enum Concrete {
     Rebuild,
     Extra(u8, Vec<u8>, Option<Vec<u8>>),
     Pressure(Box<Concrete>),
+    StoreMany(Vec<usize>),
 }
 
 impl Concrete {
